@@ -19,7 +19,7 @@ bool any_shared_stack = false;
 
 inline bool on_own_stack(Thread *me, uintptr_t a) { return a - me->stack_lo < (me->stack_hi - me->stack_lo); }
 const uintptr_t STACK_BASE = 0x7d0000000000ULL;
-const uintptr_t STACK_END = STACK_BASE + (256ULL * 1024) * 2048;
+const uintptr_t STACK_END = STACK_BASE + (2048ULL * 1024) * 2048;
 
 inline void plain_access(uintptr_t a, size_t n, bool write, uintptr_t pc)
 {
